@@ -5,25 +5,30 @@ import time
 
 from . import common as C
 
-ALL_LISTS = ["P1", "P2", "P3", "P4", "P5", "P6", "P7", "P8", "P9", "F1", "F2", "F3", "F4", "F5", "F6", "F7", "F8", "F9", "V1", "V2", "V3", "V4", "V5", "V6", "V7",
-             "V8", "V9", "V10", "V11", "V12", "M1", "M2", "M3"]
+ALL_LISTS = ["P1", "P2", "P3", "P4", "P5", "P6", "P7", "P8", "P9", "P10", "P11", "F1", "F2", "F3", "F4", "F5", "F6", "F7", "F8", "F9", "F10", "V1", "V2", "V3", "V4", "V5", "V6", "V7",
+             "V8", "V9", "V10", "V11", "V12", "V13", "V14", "M1", "M2", "M3", "M4"]
 TRACKED = ["P3", "P4", "P5", "P8", "F3", "F4", "F5", "F6", "F9", "V3", "V4", "V7", "V9", "V10", "V12", "M2", "M3"]
 # lists of trivial value types for the "never clobbered alive" clause of C06 (observable through the values only)
 C06_TRIVIAL = ["P1", "F1", "V1", "V2", "V5", "M1"]
-ALIGNED = ["P2", "P6", "F2", "F7", "V1", "V3", "V5", "V6", "V7", "V8", "V9", "M1"]
-VARYING = ["V1", "V2", "V3", "V4", "V5", "V6", "V7", "V8", "V9", "M1", "M2", "M3"]
+ALIGNED = ["P2", "P6", "P10", "F2", "F7", "F10", "V1", "V3", "V5", "V6", "V7", "V8", "V9", "V13", "M1", "M4"]
+VARYING = ["V1", "V2", "V3", "V4", "V5", "V6", "V7", "V8", "V9", "V13", "V14", "M1", "M2", "M3", "M4"]
 TRAIT_KINDS = ["T000", "T001", "T010", "T011", "T100", "T101", "T110", "T111"]
 
 
 def R(lst, alloc="AE", mode="hist", nmax=3, cmax=2, bmax=4, depth=6, junk=0, base=0, arena1=0, faults=0, fixed=None,
-      max_states=400000, cscale=1, fault_ops=0):
+      max_states=400000, cscale=1, fault_ops=0, wide=0):
     return dict(list=lst, alloc=alloc, mode=mode, nmax=nmax, cmax=cmax, bmax=bmax, depth=depth, junk=junk, base=base,
-                arena1=arena1, faults=faults, fixed=fixed, max_states=max_states, cscale=cscale, fault_ops=fault_ops)
+                arena1=arena1, faults=faults, fixed=fixed, max_states=max_states, cscale=cscale, fault_ops=fault_ops, wide=wide)
 
 
 def big_runs(lists, tier, mode="hist", depth=5, **kw):
     """the same alphabets with larger objects counts: spans of 4/8 objects (16..64 bytes), fixed sizes 8"""
     return [R(l, "AE", mode, depth=depth, junk=1, cscale=4, fixed="8", **kw) for l in lists]
+
+
+def wide_runs(lists, tier, mode="hist", depth=4, nmax=17, alloc="AE", **kw):
+    """vectors of 16 and 17 elements (macro operation fill), erase at selected positions, span lengths 0..2"""
+    return [R(l, alloc, mode, nmax=nmax, cmax=2, bmax=40, depth=depth, junk=1, wide=1, fixed="2", **kw) for l in lists]
 
 
 def hist_runs(lists, tier, allocs=("AE",), mode="hist", **kw):
@@ -65,8 +70,10 @@ def spec(prop, tier):
         if q:
             primary = ["P1", "P3", "F1", "F3", "V1", "V3", "V4", "M1"]
             return hist_runs(primary, tier, depth=8) + hist_runs([l for l in ALL_LISTS if l not in primary], tier, depth=6) + \
-                big_runs(["F1", "F3", "V1", "V2", "V3", "V5", "M1", "M2"], tier, depth=6)
-        return hist_runs(ALL_LISTS, tier, allocs=("AE", "NP"), nmax=4, cmax=3, bmax=6, depth=7)
+                big_runs(["F1", "F3", "V1", "V2", "V3", "V5", "M1", "M2"], tier, depth=6) + \
+                wide_runs(["P1", "F1", "F3", "V1", "V2", "V3", "V5", "M1", "M2", "V14", "M4"], tier, depth=5)
+        return hist_runs(ALL_LISTS, tier, allocs=("AE", "NP"), nmax=4, cmax=3, bmax=6, depth=7) + \
+            wide_runs(ALL_LISTS, tier, depth=6) + wide_runs(["F1", "V1", "V3", "M1"], tier, depth=5, nmax=33)
     if prop == "C16":
         if q:
             primary = ["P1", "F3", "V1", "V3", "M1"]
@@ -74,7 +81,8 @@ def spec(prop, tier):
                 [R(l, "AE", "hist", depth=5, junk=1) for l in ALL_LISTS if l not in primary] + \
                 big_runs(["F3", "V1", "V3", "M1"], tier, depth=5) + \
                 pair_runs(["F3", "V1", "V3"], ["AE", "PP"], tier, 5) + pair_runs(["P3", "F2", "V5", "M2"], ["NP"], tier, 4) + \
-                pair_runs(["F3", "V1", "V3"], ["T001", "T101", "T010"], tier, 4)  # swap/move traits that disagree with each other
+                pair_runs(["F3", "V1", "V3"], ["T001", "T101", "T010"], tier, 4) + \
+                wide_runs(["F3", "V1", "V3", "M1"], tier, depth=5)  # (trait kinds: swap/move traits that disagree with each other)
         return hist_runs(ALL_LISTS, tier, allocs=("AE", "NP"), nmax=4, cmax=3, bmax=6, depth=6) + \
             pair_runs(ALL_LISTS, ["AE", "NP", "PP"], tier, 5) + pair_runs(["F1", "F3", "V1", "V3", "M2"], TRAIT_KINDS, tier, 5)
     if prop in ("C02", "C03", "C04", "C05"):
@@ -84,6 +92,7 @@ def spec(prop, tier):
                     "C04": ["P3", "F2", "F5", "V2", "V5", "V6", "M1", "M2"], "C05": ["P2", "F2", "V1", "V5", "V6", "M1"]}[prop]
             runs = hist_runs(pick, tier, depth=6) + [R(l, "AE", "hist", depth=5, junk=1) for l in lists if l not in pick] + \
                 big_runs([l for l in ("F2", "V1", "V2", "V5", "V8", "M1") if l in lists], tier, depth=5)
+            runs += wide_runs([l for l in ("F2", "V1", "V2", "V5", "V8", "M1", "M4", "V13") if l in lists], tier, depth=4)
             if prop == "C03":
                 runs += pair_runs([l for l in pick if l in ("F2", "V1", "V5", "M1")], ["NP"], tier, 4)
             if prop == "C05":
@@ -100,6 +109,7 @@ def spec(prop, tier):
                 runs += elem_runs(["V5", "M1"], ["AE"], tier, 3)
             return runs
         runs = hist_runs(lists, tier, allocs=("AE",), nmax=4, cmax=3, bmax=6, depth=5)
+        runs += wide_runs(lists, tier, depth=5)
         runs += pair_runs(lists, ["NP"], tier, 4)
         runs += elem_runs(lists, ["NP"], tier, 3)
         return runs
@@ -108,6 +118,7 @@ def spec(prop, tier):
             primary = ["P3", "F3", "V3", "V4", "M2"]
             return hist_runs(primary, tier, depth=7) + [R(l, "AE", "hist", depth=6, junk=1) for l in TRACKED if l not in primary] + \
                 [R(l, "AE", "hist", depth=6, junk=1) for l in C06_TRIVIAL] + \
+                wide_runs(["F3", "F6", "V3", "V10", "M2", "V1"], tier, depth=5) + \
                 big_runs(["F3", "V3", "V9", "M2"], tier, depth=5) + \
                 pair_runs(["F3", "V3"], ["AE", "NP"], tier, 5) + pair_runs(["P3", "P5", "F4", "F6", "V7", "V10", "M2", "M3"], ["NP"], tier, 4) + \
                 elem_runs(["F3", "V3"], ["NP"], tier, 3) + elem_runs(["P5", "F4", "F6", "V10", "M2", "V7"], ["NP"], tier, 2)
@@ -130,7 +141,9 @@ def spec(prop, tier):
     if prop == "C09":
         if q:
             return pair_runs(["P1", "F1", "F3", "V1", "V3"], ["AE", "NP"], tier, 5) + \
-                pair_runs(["P3", "F2", "F4", "V2", "V5", "V7", "M1", "M2", "P8", "P9", "F9", "V12"], ["AE", "NP"], tier, 4)
+                pair_runs(["P3", "F2", "F4", "V2", "V5", "V7", "M1", "M2", "P8", "P9", "F9", "V12"], ["AE", "NP"], tier, 4) + \
+                wide_runs(["F3", "V1", "V3"], tier, mode="pair", depth=4, alloc="NP", arena1=1) + \
+                wide_runs(["F3", "V1", "V3"], tier, mode="pair", depth=4)
         return pair_runs(ALL_LISTS, ["AE", "NP", "PP"], tier, 5, nmax=3)
     if prop == "C10":
         if q:
@@ -212,6 +225,8 @@ def engine_argv(binpath, r, prop, outfile, workers, deadline):
         argv += ["--fixed", r["fixed"]]
     if r.get("fault_ops", 0):
         argv += ["--fault-ops", str(r["fault_ops"])]
+    if r.get("wide", 0):
+        argv += ["--wide", "1"]
     if r.get("cscale", 1) != 1:
         argv += ["--cscale", str(r["cscale"])]
     return argv
@@ -221,7 +236,8 @@ def run_key(r):
     return "%s_%s_%s_j%d_b%d_a%d_f%d%s" % (r["list"], r["alloc"], r["mode"], r["junk"], r["base"], r["arena1"], r["faults"],
                                             (("_x" + r["fixed"].replace(",", ".")) if r["fixed"] else "") +
                                             (("_s%d" % r["cscale"]) if r.get("cscale", 1) != 1 else "") +
-                                            (("_o%d" % r["fault_ops"]) if r.get("fault_ops", 0) else ""))
+                                            (("_o%d" % r["fault_ops"]) if r.get("fault_ops", 0) else "") +
+                                            (("_w%d" % r["nmax"]) if r.get("wide", 0) else ""))
 
 
 def collect(prop, tier, runs, t0, deadline_s):
